@@ -15,6 +15,8 @@ struct G<'a> {
     ctx: &'a mut Ctx,
     eng: &'a mut dyn Engine,
     sh: Shadow,
+    /// the FDT instance the datagram just described completes (in the shadow)
+    done: Option<u32>,
 }
 
 fn ans_str(inst: &Inst) -> String {
@@ -61,7 +63,7 @@ impl<'a> G<'a> {
     fn cfg(&mut self, id: &str, me: usize, st_: bool, ot: bool, mc: usize, once: bool, chk: bool, skew: i64, sct: bool, fast: bool) {
         self.ctx.case(id);
         self.eng.reset();
-        self.sh = Shadow::default();
+        self.sh = Shadow { once, obj_to: ot, ..Default::default() };
         let op = format!(
             "recv cfg {} {} {} {} {} {} {} {} {}",
             me, st_ as u8, ot as u8, mc, once as u8, chk as u8, skew, sct as u8, fast as u8
@@ -82,13 +84,14 @@ impl<'a> G<'a> {
                 let mut ans = "X".to_string();
                 if i.toi == 0 {
                     if let Some(id) = i.fdt_id {
-                        self.sh.feed(&i, now as i128);
+                        let done = self.sh.feed(&i, now as i128);
                         if let Some(inst) = self.sh.inst.get(&id) {
                             if inst.hook_panic {
                                 return (Kind::Out, String::new());
                             }
-                            if inst.complete {
+                            if done {
                                 ans = ans_str(inst);
+                                self.done = Some(id);
                             }
                         }
                     }
@@ -115,12 +118,17 @@ impl<'a> G<'a> {
 
     /// a datagram built by the generator itself (always in the modelled scope)
     fn push(&mut self, bytes: &[u8], now: i64) -> String {
+        self.done = None;
         let (k, line) = self.describe(bytes, now);
         if k == Kind::Out {
             self.ctx.count("skipped:parser-or-hook-panic");
             return String::new();
         }
-        self.ctx.step(self.eng, &line)
+        let obs = self.ctx.step(self.eng, &line);
+        if let Some(id) = self.done.take() {
+            self.sh.completed_call(id, &obs);
+        }
+        obs
     }
 
     /// a mutated datagram: modelled when the parser rejects it or it belongs to another TSI
@@ -158,6 +166,7 @@ impl<'a> G<'a> {
         self.ctx.step(self.eng, &format!("recv fz {} {}", now, hex(bytes)));
     }
     fn cleanup(&mut self, now: i64, stale: bool) -> String {
+        self.sh.cleanup(if stale { "1" } else { "0" });
         self.ctx.step(self.eng, &format!("recv cleanup {} {}", now, stale as u8))
     }
     fn isexp(&mut self, el: bool) {
@@ -184,13 +193,14 @@ impl<'a> G<'a> {
     fn cleanup_spec(&mut self, now: i64, tois: &[u128], ids: &[u32]) -> String {
         let j = |v: Vec<String>| if v.is_empty() { "-".to_string() } else { v.join(",") };
         let spec = format!("T{}/F{}", j(tois.iter().map(|x| x.to_string()).collect()), j(ids.iter().map(|x| x.to_string()).collect()));
+        self.sh.cleanup(&spec);
         self.ctx.step(self.eng, &format!("recv cleanup {} {}", now, spec))
     }
     #[allow(clippy::too_many_arguments)]
     fn cfg2(&mut self, id: &str, me: usize, st_: bool, ot: bool, mc: usize, once: bool, chk: bool, skew: i64, sct: bool, fast: u8) {
         self.ctx.case(id);
         self.eng.reset();
-        self.sh = Shadow::default();
+        self.sh = Shadow { once, obj_to: ot, ..Default::default() };
         let op = format!("recv cfg {} {} {} {} {} {} {} {} {}", me, st_ as u8, ot as u8, mc, once as u8, chk as u8, skew, sct as u8, fast);
         self.ctx.step(self.eng, &op);
     }
@@ -437,7 +447,7 @@ pub fn run(ctx: &mut Ctx, eng: &mut dyn Engine) {
         configured limits, cleanup releases), C04 (no panic, call time, rejected datagram leaves state, fresh session delivered); \
         non-trivial = distinct (skew, SCT, check, duration, lateness, order) expiry cases with the check enabled + distinct registry/cleanup/malformed scenarios"
         .to_string();
-    let mut g = G { ctx, eng, sh: Shadow::default() };
+    let mut g = G { ctx, eng, sh: Shadow::default(), done: None };
 
     family_expiry(&mut g, &mut rng, thorough);
     family_second_instance(&mut g, &mut rng, thorough);
@@ -925,7 +935,9 @@ fn family_xml(g: &mut G, rng: &mut Rng, thorough: bool) {
         let mut sh = Shadow::default();
         for p in s.pkts.iter().filter(|p| is_fdt(&p.0)) {
             if let Ok(i) = parse_info(&p.0) {
-                sh.feed(&i, p.1 as i128);
+                if sh.feed(&i, p.1 as i128) {
+                    break;
+                }
             }
         }
         let xml = match sh.inst.get(&7) {
@@ -1208,7 +1220,7 @@ fn family_review(g: &mut G, rng: &mut Rng, thorough: bool) {
 
     // ---- C04 (review batch 2, #1): hostile datagrams that reuse the FDT Instance ID / TOIs of the
     //      genuine session that follows (no cleanup in between): the session must still be delivered
-    for variant in 0..5u8 {
+    for variant in 0..6u8 {
         for once in [true, false] {
             let lens = [rng.range(1, 100) as usize, rng.range(1, 100) as usize];
             let s = session(rng, T0 + SEC, true, 3600, 1, 1, &lens, 32, 8, true, 255);
@@ -1246,11 +1258,21 @@ fn family_review(g: &mut G, rng: &mut Rng, thorough: bool) {
                     g.push(&p, T0);
                     "C04:fdt-id-blocked-by-forged-fti"
                 }
-                _ => {
+                4 => {
                     // the same with another symbol size / block length only
                     let p = mk_pkt(0, Some(1), 8, 3, true, 200, 0, 0, vec![0x3c; 8], false, None);
                     g.push(&p, T0);
                     "C04:fdt-id-blocked-by-forged-fti"
+                }
+                _ => {
+                    // a forged first symbol under the GENUINE FTI: the first carousel round assembles a
+                    // document with that symbol in it and fails; the next round must start afresh
+                    let fti = s.pkts.iter().filter(|p| is_fdt(&p.0)).find_map(|p| parse_info(&p.0).ok().and_then(|i| i.fti));
+                    if let Some((_, e, b, l)) = fti {
+                        let p = mk_pkt(0, Some(1), e, b as u16, true, l, 0, 0, vec![0x3c; (e as u64).min(l) as usize], false, None);
+                        g.push(&p, T0);
+                    }
+                    "C04:fdt-id-poisoned-by-failed-instance"
                 }
             };
             g.probe();
